@@ -117,11 +117,49 @@ fn explore_date(x: &X) -> X {
     }
 }
 
+/// input: (L checked (B value)) -> outcome (L (L [max_age]) no_store)
+fn cc_kvarn(x: &X) -> X {
+    let l = match x.as_l() {
+        Some(l) if l.len() == 2 => l,
+        _ => return X::bad(),
+    };
+    let v = match l[1].as_b() {
+        Some(b) => b,
+        None => return X::bad(),
+    };
+    if v.iter().any(|c| !((32..127).contains(c) || *c == 9)) {
+        return ood();
+    }
+    let s = std::str::from_utf8(v).expect("ascii");
+    crate::guarded(|| match utils::parse::CacheControl::from_kvarn_cache_control(s) {
+        Ok(cc) => {
+            // the fields are private: take them from the derived Debug text
+            let d = format!("{cc:?}");
+            let max_age = d.split("max_age: ").nth(1).and_then(|r| {
+                r.strip_prefix("Some(").and_then(|r| r.split(')').next()).and_then(|n| n.parse::<u128>().ok())
+            });
+            let no_store = d.contains("no_store: true");
+            X::ok(X::L(vec![X::opt(max_age.map(X::N)), X::bool(no_store)]))
+        }
+        Err(e) => {
+            use utils::parse::CacheControlError::*;
+            X::err(match e {
+                MultipleMaxAge => 1,
+                InvalidInteger => 2,
+                InvalidUnit => 3,
+                InvalidKeyword => 4,
+                InvalidBytes => 5,
+            })
+        }
+    })
+}
+
 pub fn dispatch(comp: &str, x: &X) -> Option<X> {
     Some(match comp {
         "query.parse" => query_parse(x),
         "query.iter" | "query.iter_v0" => query_iter(x),
         "pathquery" => pathquery(x),
+        "cc.kvarn" => cc_kvarn(x),
         "explore.date" => explore_date(x),
         _ => return None,
     })
